@@ -63,6 +63,8 @@ fn domain() -> Vec<Value> {
         Value::Array(ValueType::Float, (0..300).map(|i| f(i as f64 / 7.0)).collect()),
         Value::Timestamp(chrono::Local.timestamp_opt(1_600_000_000, 123_000_000).unwrap()),
         Value::Timestamp(chrono::Local.timestamp_opt(0, 0).unwrap()),
+        // another instant within the same second as the first one
+        Value::Timestamp(chrono::Local.timestamp_opt(1_600_000_000, 456_000_000).unwrap()),
         Value::Interval(chrono::Duration::milliseconds(3_723_004)),
         Value::Interval(chrono::Duration::seconds(0)),
         // a day and more (the hour count is not a time of day)
@@ -438,7 +440,7 @@ pub fn run(ctx: &Ctx) -> i32 {
         &col,
         Finish {
             level: "exploration",
-            rule: "all rows of 1 and 2 columns over a 46-value printable domain (3 columns over a reduced domain) x {text, json, csv} x single_result x result shapes (0..3 rows, sequences of 1..3 results) through the public OutputPrinter; oracle: JSON parse-back (keys in order, INT exact, REAL bit-exact, TEXT equal, arrays element-wise, timestamp/interval text), CSV header once + field count + INT/TEXT/NULL/BOOLEAN field content, text `name: value` pairs, println accounting. Non-trivial: a value needs escaping or the row has > 1 column.".into(),
+            rule: "all rows of 1 and 2 columns over a 47-value printable domain (3 columns over a reduced domain) x {text, json, csv} x single_result x result shapes (0..3 rows, sequences of 1..3 results) through the public OutputPrinter; oracle: JSON parse-back (keys in order, INT exact, REAL bit-exact, TEXT equal, arrays element-wise, timestamp/interval text), CSV header once + field count + INT/TEXT/NULL/BOOLEAN field content, text `name: value` pairs, println accounting. Non-trivial: a value needs escaping or the row has > 1 column.".into(),
             exhaustive: true,
             assumptions: vec!["REAL text form in text/CSV (two decimals) and the array text form are adopted from the README/tests, not checked".into(), "a lone input column may be printed with or without surrounding quotes (open)".into(), "non-finite REALs are C09's".into()],
             bounds: json!({"domain": n}),
